@@ -175,7 +175,7 @@ def enc_cfg(cfg, c03):
                       "alias": r["alias"]})
     b = cfg["bind"]
     return {"op": "cfg", "rules": rules, "map": cfg["map"], "c03": c03,
-            "bind": {"scheme": b["scheme"], "server": cps(b["server"].lower()), "script": cps(b["script"]), "sub": cps(b["sub"])}}
+            "bind": {"scheme": cps(b["scheme"]), "server": cps(b["server"].lower()), "script": cps(b["script"]), "sub": cps(b["sub"])}}
 
 
 DEFAULT_BIND = {"scheme": "http", "server": "example.org", "script": "/", "sub": ""}
@@ -246,10 +246,10 @@ def tokens_for(rules, rng=None, extra=()):
     return sorted(t for t in toks if "/" not in t)
 
 
-def paths_for(rules, rng, limit, maxparts=None):
+def paths_for(rules, rng, limit, maxparts=None, extra=()):
     """Paths over the token alphabet: all part sequences up to the longest rule + 1, with trailing,
     doubled and leading slash variants; sampled down to `limit` (hits are kept preferentially)."""
-    toks = [t for t in tokens_for(rules) if t]
+    toks = [t for t in tokens_for(rules, extra=extra) if t]
     n = maxparts or (max((len(r["segs"]) for r in rules), default=1) + 1)
     seqs = [()]
     for k in range(1, n + 1):
@@ -274,7 +274,7 @@ def paths_for(rules, rng, limit, maxparts=None):
                 elif sg["conv"] == "path":
                     parts.append(rng.choice(["a", "a/b", "a/b/c", "12/x"]))
                 else:
-                    cand = [t for t in tokens_for([rule([sg])]) if t.startswith(sg["pre"]) and t.endswith(sg["post"]) and t]
+                    cand = [t for t in tokens_for([rule([sg])], extra=[sg["pre"] + e + sg["post"] for e in extra]) if t.startswith(sg["pre"]) and t.endswith(sg["post"]) and t]
                     parts.append(rng.choice(cand) if cand else "a")
             p = "/" + "/".join(parts)
             hits += [p, p + "/"]
@@ -395,3 +395,102 @@ def random_rules(rng, k):
 
 
 METHODS = ["GET", "POST", "HEAD", "DELETE"]
+
+
+# ---------------------------------------------------------------------------- C12 generators
+BINDS = [
+    {"scheme": "http", "server": "example.org", "script": "/", "sub": ""},
+    {"scheme": "https", "server": "example.org:8443", "script": "/app", "sub": ""},
+    {"scheme": "http", "server": "Example.ORG", "script": "/app/", "sub": "www"},
+    {"scheme": "ws", "server": "example.org", "script": "/", "sub": ""},
+    {"scheme": "wss", "server": "example.org", "script": "/a/b", "sub": "api"},
+    {"scheme": "https", "server": "localhost:5000", "script": "", "sub": ""},
+]
+QUERIES = [
+    NOQ,
+    {"kind": "str", "s": "a=1&b=2", "pairs": []},
+    {"kind": "str", "s": "x=%C3%A9&next=//evil.example/", "pairs": []},
+    {"kind": "map", "s": "", "pairs": [["a", "1"], ["k2", "v2"]]},
+    {"kind": "map", "s": "", "pairs": [["q", "x-y_z.0"]]},
+]
+SPECIAL = ["\u00e9", "a%20b", "a b", "100%", "x?y", "x#y", "\u4e2d\u6587", "evil.com", "a:b", "\U0001f600"]
+
+
+def c12_rules(rng, k):
+    """C03 grammar + per-rule strict / merge overrides + defaults pairs + alias pairs."""
+    rules = random_rules(rng, max(1, k - 2))
+    for r in rules:
+        r["methods"] = rng.choice([None, None, None, ["GET"], ["GET", "POST"]])
+        r["strict"] = rng.choice("dddtf")
+        r["merge"] = rng.choice("dddtf")
+    extra = []
+    pool = [r for r in rules if not any(s["conv"] == "path" for s in r["segs"])]
+    if pool and rng.random() < 0.7:
+        # defaults pair: <base> with defaults {pg: 1}  +  <base>/page/<int:pg>, same endpoint
+        base = rng.choice(pool)
+        ep = "d" + str(rng.randint(1, 9))
+        # (a leading literal of its own: a defaults rule whose URL equals another rule's URL is shadowed by it,
+        # which is an invalid configuration, not a router defect)
+        pre = [lit("all")]
+        a = rule(pre + [dict(s) for s in base["segs"]], branch=rng.random() < 0.6, methods=base["methods"], endpoint=ep,
+                 strict=rng.choice("dtf"), merge=rng.choice("dtf"),
+                 defaults=[{"name": "pg", "ty": "int", "v": "1"}])
+        b = rule(pre + [dict(s) for s in base["segs"]] + [lit("page"), var("int", "pg")], branch=rng.random() < 0.5,
+                 methods=base["methods"], endpoint=ep, strict=rng.choice("dtf"), merge=rng.choice("dtf"))
+        extra += [a, b]
+    if pool and rng.random() < 0.7:
+        # alias pair: canonical rule + an alias with another leading literal, same endpoint / arguments
+        base = rng.choice(pool)
+        ep = "c" + str(rng.randint(1, 9))
+        can = rule([lit("canon")] + [dict(s) for s in base["segs"]], branch=base["branch"], endpoint=ep,
+                   strict=rng.choice("dtf"), merge=rng.choice("dtf"))
+        al = rule([lit("old")] + [dict(s) for s in base["segs"]], branch=rng.random() < 0.5, endpoint=ep, alias=True,
+                  strict=rng.choice("dtf"), merge=rng.choice("dtf"))
+        extra += [can, al]
+    rules += extra
+    rng.shuffle(rules)
+    return rules
+
+
+def c12_paths(rules, rng, limit):
+    ps = paths_for(rules, rng, limit, extra=["1"] + rng.sample(SPECIAL, 3))
+    out = list(ps)
+    for p in ps[: limit // 3]:
+        out.append("//evil.com" + p)
+        out.append("/" + p)
+        if rng.random() < 0.3:
+            out.append("///evil.com" + p)
+        if rng.random() < 0.3:
+            out.append(p.replace("/", "//", 2))
+    out += ["//evil.com", "//evil.com/", "//evil.com//", "/\\evil.com/"]
+    return out
+
+
+# ---------------------------------------------------------------------------- universe -> TLA+ (MCRoutingU.tla)
+def _tla(v):
+    if isinstance(v, bool):
+        return "TRUE" if v else "FALSE"
+    if isinstance(v, int):
+        return str(v)
+    if isinstance(v, str):
+        return '"' + v + '"'
+    if isinstance(v, (list, tuple)):
+        return "<<" + ", ".join(_tla(x) for x in v) + ">>"
+    if isinstance(v, dict):
+        return "[" + ", ".join(f"{k} |-> {_tla(x)}" for k, x in v.items()) + "]"
+    raise TypeError(v)
+
+
+def model_universe():
+    """The universe without uuid rules (a 36-character token is useless in the bounded model)."""
+    return [r for r in universe() if not any(s["conv"] == "uuid" for s in r["segs"])]
+
+
+def universe_tla():
+    rules = enc_cfg(make_cfg(model_universe()), True)["rules"]
+    body = ",\n  ".join(_tla(r) for r in rules)
+    return ("---------------------------- MODULE MCRoutingU ----------------------------\n"
+            "(* GENERATED by harness/routing.py universe_tla() from universe(): do not edit.        *)\n"
+            "(* The same rule universe is used by the code -> spec driver of C03 (harness/props/c03). *)\n"
+            f"Universe == <<\n  {body}\n>>\n"
+            "=============================================================================\n")
